@@ -12,6 +12,8 @@ def gen_scene(rng, small=True, kinds=None, multi_dir=None, n_bands=None, att_zer
     if att_zero is None:
         att_zero = rng.random() < 0.25
     att = np.zeros(B) if att_zero else rng.uniform(0.0, 0.4, size=B)
+    if not att_zero and B > 1 and rng.random() < 0.4:
+        att[int(rng.integers(0, B))] = 0.0          # lossless band next to lossy ones
     md = (rng.random() < 0.3) if multi_dir is None else multi_dir
     samp_par = None
     tables = None
@@ -41,6 +43,10 @@ def sampling_of(sc):
     nt, nph, scale, off = sc['samp_par']
     s = scenes.hemisphere_sampling(nt, nph, weight_scale=scale)
     s.azimuth = s.azimuth + off * 0.37      # away from the symmetry planes of the box
+    # break the symmetry about the wall normal (a patch straight opposite would otherwise be
+    # equidistant from all samples of one colatitude ring): deterministic per-sample jitter
+    jit = 0.03 * np.sin(1.0 + 7.3 * np.arange(s.csize) + 3.1 * off)
+    s.colatitude = np.clip(s.colatitude + jit, 0.02, np.pi / 2 - 0.02)
     return s
 
 
